@@ -107,7 +107,8 @@ class Check(PropertyCheck):
         return out
 
     def direct(self):
-        return list(self.oracle_viol)[:2] + self.sanitizer_runs()
+        import f9_part
+        return list(self.oracle_viol)[:2] + self.sanitizer_runs() + f9_part.hunt(self)
 
     def search(self):
         return []
